@@ -18,7 +18,7 @@ COLS = ["loads_min", "loads_max", "S_min", "S_max", "epsilon_min", "epsilon_max"
 FLAGS = ["is_closed_hysteresis", "is_zero_mean_stress_and_strain", "run_index"]
 REQUIRED_CLASSES = {t: ["law:neuber_binned", "law:seegerbeste_binned", "memory1", "memory2", "memory3",
                         "depth>=4", "multi:2..6_points", "multi:dyadic", "multi:general_ratio", "multi:load_ratio>100", "magnitude:tiny_loads", "negation", "load_step_labels:descending", "load_step_labels:shuffled", "node_ids:descending",
-                        "node_ids:shuffled_large"]
+                        "node_ids:shuffled_large", "index:selected_from_larger_mesh(unused_levels)"]
                     for t in ("quick", "thorough")}
 REQUIRED_MONITORS = ["stream==reversals_of_repeated_sequence", "rows:count", "rows:flags", "rows:values", "strain_values",
                      "multi_point==single_point", "negation_mirrors"]
@@ -234,7 +234,10 @@ def run_case(case, ctx):
         from pylife.stress.rainflow.fkm_nonlinear import FKMNonlinearDetector
         rec = RFR.FKMNonlinearRecorder()
         det_m = FKMNonlinearDetector(recorder=rec, notch_approximation_law=law_m)
-        ser = hcm.multi_point_series(seq, factors, labels, node_ids)
+        sel = bool(rng.random() < 0.35)
+        if sel:
+            ctx.tag("index:selected_from_larger_mesh(unused_levels)")
+        ser = hcm.multi_point_series(seq, factors, labels, node_ids, selected_from_larger_mesh=sel)
         det_m.process_hcm_first(ser)
         det_m.process_hcm_second(ser)
         cm = rec.collective
